@@ -694,7 +694,7 @@ func (fg *FG) bytesToStr(st *State, sl string) string {
 	if !fg.declSet["ax.str.of"] {
 		fg.declSet["ax.str.of"] = true
 		fg.decls = append(fg.decls, "(assert (forall ((a (Array Int Int)) (o Int) (n Int)) (! (=> (>= n 0) (= (strlen (str.of a o n)) n)) :pattern ((str.of a o n)))))")
-		fg.decls = append(fg.decls, "(assert (forall ((a (Array Int Int)) (o Int) (n Int) (i Int)) (! (=> (and (<= 0 i) (< i n)) (= (strat (str.of a o n) i) (select a (+ o i)))) :pattern ((strat (str.of a o n) i)))))")
+		fg.decls = append(fg.decls, "(assert (forall ((a (Array Int Int)) (o Int) (n Int) (i Int)) (! (=> (and (<= 0 i) (< i n) (<= 0 (select a (+ o i))) (< (select a (+ o i)) 256)) (= (strat (str.of a o n) i) (select a (+ o i)))) :pattern ((strat (str.of a o n) i)))))")
 	}
 	return fmt.Sprintf("(str.of (select %s (s.arr %s)) (s.off %s) (s.len %s))", fg.heap(st, fam, srt), sl, sl, sl)
 }
